@@ -718,7 +718,7 @@ func (c *updater) buildBackendOAuth(d *backData) {
 			c.logger.Warn("oauth2_proxy on %v needs Lua json module, install lua-json4 and enable 'external-has-lua' global config", oauth.Source)
 			continue
 		}
-		if authURL := d.mapper.Get(ingtypes.BackAuthURL); authURL.Value != "" {
+		if authURL := config.Get(ingtypes.BackAuthURL); authURL.Value != "" {
 			c.logger.Warn("ignoring oauth configuration on %v: auth-url was configured and has precedence", authURL.Source)
 			// auth-url decides: it continues to deny if its own configuration failed
 			path.AuthExternal.AlwaysDeny = authURLAlwaysDeny
